@@ -895,6 +895,11 @@ func rmScenarioC15(h *Hist, mons []Monitor) {
 	if t == nil {
 		return
 	}
+	if len(st.open()) < 2 { // a second allocation for the markers that name another allocation
+		if c := stNewAlloc(h, r); c != nil {
+			h.stInner(c)
+		}
+	}
 	a, v := t.a, t.v
 	reader := a.Owner
 	if r.Chance(0.5) {
